@@ -99,7 +99,8 @@ class EventLog(object):
     Logging draws nothing from any PRNG and reads no clock."""
 
     def __init__(self, keep=False):
-        self._h = hashlib.sha256()
+        self._h = hashlib.sha256()        # what the library returned / did: the run digest
+        self._hs = hashlib.sha256()       # plus the simulator's own schedule events
         self.n = 0
         self.keep = keep
         self.events = []
@@ -108,12 +109,26 @@ class EventLog(object):
         s = json.dumps(fields, sort_keys=True, default=str)
         self._h.update(s.encode())
         self._h.update(b"\n")
+        self._hs.update(s.encode())
+        self._hs.update(b"\n")
         self.n += 1
         if self.keep:
             self.events.append(fields)
 
+    def sched(self, *fields):
+        """simulator-internal events (which worker took which chunk when): part of the schedule digest only. A tree may
+        legally keep pools or caches alive between calls, which changes these without changing any result."""
+        s = json.dumps(fields, sort_keys=True, default=str)
+        self._hs.update(s.encode())
+        self._hs.update(b"\n")
+        if self.keep:
+            self.events.append(("sched",) + tuple(fields))
+
     def digest(self):
         return self._h.hexdigest()[:16]
+
+    def full_digest(self):
+        return self._hs.hexdigest()[:16]
 
 
 class Result(object):
@@ -126,7 +141,9 @@ class Result(object):
         self.steps = 0
         self.sim_time = 0.0
         self.digest = ""
+        self.sched_digest = ""
         self.inconclusive = []   # notes (never alarms)
+        self.step_results = {}   # stable key -> digest of what that step returned (order-independence stage)
 
     def count(self, key, n=1):
         self.stats[key] = self.stats.get(key, 0) + n
@@ -139,7 +156,7 @@ class Result(object):
 
     def summary(self):
         return {"violations": self.violations, "stats": self.stats, "sigs": sorted(self.sigs),
-                "steps": self.steps, "sim_time": self.sim_time, "digest": self.digest,
+                "steps": self.steps, "sim_time": self.sim_time, "digest": self.digest, "sched_digest": self.sched_digest,
                 "inconclusive": self.inconclusive}
 
 
@@ -203,6 +220,10 @@ def in_fresh_fork(fn, arg, watchdog=600):
         code = 0
         try:
             os.close(r)
+            try:
+                os.setpgid(0, 0)      # own process group: whatever this child leaves behind is killed with it
+            except OSError:
+                pass
             # the library under test may print and warn; neither belongs in the check's output
             dn = os.open(os.devnull, os.O_WRONLY)
             os.dup2(dn, 1)
@@ -234,6 +255,10 @@ def in_fresh_fork(fn, arg, watchdog=600):
         chunks.append(part)
     os.close(r)
     _, status = os.waitpid(pid, 0)
+    try:
+        os.killpg(pid, signal.SIGKILL)      # stragglers (workers of real pools the code under test never closed)
+    except OSError:
+        pass
     if not chunks:
         raise HarnessError("isolated child died without a result (status %d; watchdog %ds)" % (status, watchdog))
     kind, val = pickle.loads(b"".join(chunks))
@@ -267,6 +292,12 @@ def _run_block(args):
         return {"harness_error": "block %s..: %s" % (args[3][:1], traceback.format_exc())}
 
 
+def _both_digests_inner(args):
+    pid, plan = args
+    r = execute_plan(pid, plan)
+    return [r.digest, r.sched_digest]
+
+
 def _history_probe_inner(args):
     pid, prefix, plan = args
     for p in prefix:
@@ -279,6 +310,77 @@ def history_probe(pid, prefix, plan):
     alone = in_fresh_fork(_history_probe_inner, (pid, [], plan))
     after = in_fresh_fork(_history_probe_inner, (pid, prefix, plan))
     return alone, after
+
+
+def _step_results_inner(args):
+    pid, plan = args
+    r = execute_plan(pid, plan)
+    return r.step_results
+
+
+def order_probe(pid, variants):
+    """execute every variant (the same operations in another order / interleaving) in its own fresh fork and compare
+    what each operation returned, key by key"""
+    outs = [in_fresh_fork(_step_results_inner, (pid, v)) for v in variants]
+    bad = []
+    base = outs[0]
+    for vi, o in enumerate(outs[1:], 1):
+        for k in sorted(set(base) & set(o)):
+            if base[k] != o[k]:
+                bad.append((k, vi, base[k], o[k]))
+    return bad, sum(len(set(base) & set(o)) for o in outs[1:])
+
+
+def _order_job(args):
+    pid, base_seed, tier, i = args
+    w = get_world(pid)
+    try:
+        plan = plan_for(pid, base_seed, i, tier)
+        variants = w.order_variants(plan)
+        if not variants or len(variants) < 2:
+            return {"index": i, "skipped": True}
+        bad, n = order_probe(pid, variants)
+        if bad:
+            bad2, _ = order_probe(pid, variants)           # must reproduce, otherwise it is nondeterminism
+            if sorted(bad2) != sorted(bad):
+                return {"index": i, "nondeterministic": True, "bad": bad[:3]}
+            # shrink: drop operations (from every variant alike) while some key still differs
+            small = variants
+            if hasattr(w, "order_drop"):
+                keys = sorted(set(k for k, _, _, _ in bad))
+                small = _shrink_order(pid, w, variants, keys)
+            return {"index": i, "bad": bad[:5], "variants": small, "compared": n}
+        return {"index": i, "compared": n}
+    except HarnessError as e:
+        return {"index": i, "harness_error": str(e)}
+
+
+def _shrink_order(pid, w, variants, keys, budget=60):
+    best = variants
+    ops = w.order_ops(best)
+    n = 2
+    used = 0
+    while len(ops) > 2 and used < budget:
+        size = max(1, len(ops) // n)
+        reduced = False
+        for k in range(0, len(ops), size):
+            drop = ops[k:k + size]
+            cand = w.order_drop(best, drop)
+            if cand is None:
+                continue
+            used += 1
+            try:
+                bad, _ = order_probe(pid, cand)
+            except HarnessError:
+                bad = []
+            if bad:
+                best, ops, reduced = cand, w.order_ops(cand), True
+                break
+        if not reduced:
+            if size == 1:
+                break
+            n = min(len(ops), n * 2)
+    return best
 
 
 def _history_job(args):
@@ -348,6 +450,19 @@ class Farm(object):
         runs.sort(key=lambda s: s["index"])
         return runs
 
+    def map_calls(self, fn, args, timeout=1800):
+        futs = [self.ex.submit(fn, a) for a in args]
+        out = []
+        deadline = _wall() + timeout
+        for f in futs:
+            try:
+                out.append(f.result(timeout=max(1.0, deadline - _wall())))
+            except _cf.TimeoutError:
+                raise HarnessError("watchdog: call did not finish within %ds" % timeout)
+            except Exception as e:
+                raise HarnessError("worker died: %r" % (e,))
+        return out
+
     def call(self, fn, arg, timeout=900):
         f = self.ex.submit(fn, arg)
         try:
@@ -375,15 +490,59 @@ class Farm(object):
 # ----------------------------------------------------------------------------------------------
 # shrinking (ddmin over plan["steps"] + world-specific simplifications)
 # ----------------------------------------------------------------------------------------------
+def _violation_sigs(args):
+    pid, plan = args
+    return [v["sig"] for v in execute_plan(pid, plan).violations]
+
+
+def _prefixed_sigs(args):
+    pid, prefix, plan = args
+    for p in prefix:
+        execute_plan(pid, p)
+    return [v["sig"] for v in execute_plan(pid, plan).violations]
+
+
+def _prefix_job(args):
+    """a violation that does not reproduce when its plan runs alone in a fresh process: it needs the state that earlier
+    runs of its block left behind. Find a (ddmin-reduced) prefix of earlier plans after which it does reproduce."""
+    pid, base_seed, tier, block_indices, i, sig = args
+    plan = plan_for(pid, base_seed, i, tier)
+    prefix_idx = [j for j in block_indices if j < i]
+    prefix = [plan_for(pid, base_seed, j, tier) for j in prefix_idx]
+
+    def shows(pref):
+        try:
+            return sig in in_fresh_fork(_prefixed_sigs, (pid, pref, plan), watchdog=600)
+        except HarnessError:
+            return False
+    if not shows(prefix):
+        return None
+    keep = list(range(len(prefix)))
+    n, tests = 2, 0
+    while len(keep) > 1 and tests < 40:
+        size = max(1, len(keep) // n)
+        reduced = False
+        for k in range(0, len(keep), size):
+            cand = keep[:k] + keep[k + size:]
+            tests += 1
+            if shows([prefix[c] for c in cand]):
+                keep, reduced = cand, True
+                break
+        if not reduced:
+            if size == 1:
+                break
+            n = min(len(keep), n * 2)
+    return {"prefix": [prefix[c] for c in keep], "prefix_indices": [prefix_idx[c] for c in keep], "plan": plan}
+
+
 def _same_violation(pid, plan, sig):
+    """does this candidate still show the violation? Judged in a fresh fork, so that the verdict is a function of the
+    candidate alone and not of whatever earlier candidates left behind in the process (module caches of a broken tree)"""
     try:
-        res = execute_plan(pid, plan)
+        sigs = in_fresh_fork(_violation_sigs, (pid, plan), watchdog=300)
     except BaseException:
         return None
-    for v in res.violations:
-        if v["sig"] == sig:
-            return v
-    return None
+    return sig if sig in sigs else None
 
 
 def shrink(pid, plan, sig, budget=400, wall=240):
@@ -432,6 +591,11 @@ def shrink(pid, plan, sig, budget=400, wall=240):
                         best, progress, changed = cand, True, True
                         break
     return best, used[0]
+
+
+def _alone_job(args):
+    pid, plan, sig = args
+    return _same_violation(pid, plan, sig) is not None
 
 
 def _shrink_job(args):
@@ -530,9 +694,13 @@ def run_check(pid, tier, base_seed, out=sys.stdout):
         fresh_n = sizes.get("det_fresh", 6)
         fidx = det_idx[:: max(1, len(det_idx) // fresh_n)][:fresh_n]
         fresh = fresh_digests(pid, base_seed, tier, fidx, hashseed=4242) if fidx else {}
-        mism += [int(i) for i, d in fresh.items() if d1[int(i)] != d]
+        mism += [int(i) for i, d in fresh.items() if d1[int(i)] != d[0]]
+        # schedule-level determinism: the same plan alone in a pristine fork vs alone in a fresh interpreter
+        alone_full = dict((r["index"], r.get("sched_digest")) for r in again)
+        sched_mism = [int(i) for i, d in fresh.items() if alone_full.get(int(i)) not in (None, "", d[1]) and d[1]]
         det_report = {"seeds_rerun_isolated_process": len(det_idx), "seeds_rerun_fresh_interpreter": len(fresh),
-                      "mismatches": sorted(set(mism)), "history_dependent": [], "nondeterministic": []}
+                      "mismatches": sorted(set(mism)), "history_dependent": [], "nondeterministic": [],
+                      "schedule_digest_mismatches_between_two_pristine_executions": sorted(set(sched_mism))}
 
         # ---- a mismatch is either hidden state carried between calls (reproducible: depends on the runs
         #      executed earlier in the same block) or true nondeterminism of the harness
@@ -550,6 +718,33 @@ def run_check(pid, tier, base_seed, out=sys.stdout):
         extra = {}
         if hasattr(w, "extra_stage"):
             extra = w.extra_stage(tier, base_seed, farm) or {}
+
+        # ---- order-independence stage: the same operations in another order / interleaving, each order in a pristine
+        #      process; what each operation returns must not depend on what ran before it
+        order_report = None
+        if hasattr(w, "order_variants") and sizes.get("order", 0):
+            n_ord = min(n_runs, sizes["order"])
+            oidx = sorted(set(int(k * (n_runs - 1) / max(1, n_ord - 1)) for k in range(n_ord)))
+            outs = farm.map_calls(_order_job, [(pid, base_seed, tier, i) for i in oidx], timeout=sizes.get("timeout", 3000))
+            order_report = {"plans_rerun_in_another_order": 0, "operations_compared": 0, "order_dependent": [], "nondeterministic": []}
+            for o in outs:
+                if o.get("harness_error"):
+                    raise HarnessError("order stage: " + o["harness_error"])
+                if o.get("skipped"):
+                    continue
+                order_report["plans_rerun_in_another_order"] += 1
+                order_report["operations_compared"] += o.get("compared", 0)
+                if o.get("nondeterministic"):
+                    order_report["nondeterministic"].append(o["index"])
+                elif o.get("bad"):
+                    order_report["order_dependent"].append(o["index"])
+                    k, vi, a_, b_ = o["bad"][0]
+                    extra.setdefault("violations", []).append({
+                        "kind": "hidden-state", "sig": "%s:result-depends-on-the-order-of-unrelated-operations" % pid, "stage": "order",
+                        "detail": "run %d: operation %s returns %s when the plan runs in its original order but %s in variant %d "
+                                  "(same operations, other order; both in pristine processes; reproduced twice)" % (o["index"], k, a_, b_, vi),
+                        "index": o["index"], "no_shrink": True, "plan": {"variants": o["variants"], "steps": None}})
+            extra.setdefault("coverage", {})["order_independence"] = order_report
 
         # ---- classify violations
         for r in runs:
@@ -592,17 +787,27 @@ def run_check(pid, tier, base_seed, out=sys.stdout):
                 continue
             seen.add(v["sig"])
             small, used = (plan, 0)
+            stage = v.get("stage", "simulation")
             if plan is not None and plan.get("steps") is not None and not v.get("no_shrink"):
-                try:
-                    small, used = farm.call(_shrink_job, (pid, plan, v["sig"]), timeout=1300)
-                except HarnessError:
-                    small, used = plan, -1
+                alone = farm.call(_alone_job, (pid, plan, v["sig"]), timeout=700)
+                if alone:
+                    try:
+                        small, used = farm.call(_shrink_job, (pid, plan, v["sig"]), timeout=1300)
+                    except HarnessError:
+                        small, used = plan, -1
+                else:
+                    # needs what earlier runs of its block left behind in the process: replay = prefix + plan
+                    blk = [b for b in (indices[k:k + block] for k in range(0, len(indices), block)) if idx in b][0]
+                    pj = farm.call(_prefix_job, (pid, base_seed, tier, blk, idx, v["sig"]), timeout=1500)
+                    if pj is not None:
+                        small, stage = {"prefix": pj["prefix"], "plan": pj["plan"], "steps": None}, "prefixed"
+                        v = dict(v, detail=v["detail"] + " [reproduces only after runs %s were executed first in the same process]" % pj["prefix_indices"])
             path = os.path.join(os.environ.get("VERIF_REPLAY_DIR", os.path.join(VERIF_DIR, "replays")), "%s-%d-%d.json" % (pid, base_seed, idx))
             write_json(path, {"property": pid, "seed": base_seed, "run_index": idx, "run_seed": run_seed(base_seed, pid, idx),
                               "tier": tier, "tree": tree_id(), "shrink_executions": used,
                               "original_steps": len(plan.get("steps") or []) if plan else None,
                               "plan": small, "expect": {"sig": v["sig"], "kind": v["kind"], "detail": v["detail"]},
-                              "stage": v.get("stage", "simulation")})
+                              "stage": stage})
             reported.append((path, v))
     finally:
         farm.close()
@@ -651,6 +856,13 @@ def run_check(pid, tier, base_seed, out=sys.stdout):
             print("violation: %s :: %s" % (v["sig"], v["detail"]), file=out)
             print("VIOLATION property=%s replay=%s" % (pid, path), file=out)
         return EXIT_VIOLATION
+    if order_report and order_report["nondeterministic"]:
+        print("HARNESS-ERROR property=%s order stage: runs %s give different results on repetition" % (pid, order_report["nondeterministic"]), file=out)
+        return EXIT_HARNESS
+    if det_report["schedule_digest_mismatches_between_two_pristine_executions"]:
+        print("HARNESS-ERROR property=%s runs %s: two pristine executions of the same plan took different simulated schedules"
+              % (pid, det_report["schedule_digest_mismatches_between_two_pristine_executions"]), file=out)
+        return EXIT_HARNESS
     if det_report["mismatches"]:
         print("HARNESS-ERROR property=%s runs %s: same seed, different digest (%s)"
               % (pid, det_report["mismatches"], json.dumps({"history_dependent": det_report["history_dependent"],
@@ -667,6 +879,24 @@ def run_replay(pid, path, out=sys.stdout):
     w = get_world(pid)
     w.warm()
     rp["_path"] = path
+    if rp.get("stage") == "prefixed":
+        sigs = in_fresh_fork(_prefixed_sigs, (pid, rp["plan"]["prefix"], rp["plan"]["plan"]), watchdog=900)
+        print("replay: after %d earlier run(s) the plan shows %s" % (len(rp["plan"]["prefix"]), sigs), file=out)
+        if rp["expect"]["sig"] in sigs or sigs:
+            print("VIOLATION property=%s replay=%s" % (pid, path), file=out)
+            return EXIT_VIOLATION
+        print("replay: no violation on this tree", file=out)
+        return EXIT_OK
+    if rp.get("stage") == "order":
+        bad, n = order_probe(pid, rp["plan"]["variants"])
+        print("replay: %d operations compared across %d orders, %d differ" % (n, len(rp["plan"]["variants"]), len(bad)), file=out)
+        for b in bad[:5]:
+            print("  operation %s: %s vs %s (variant %d)" % (b[0], b[2], b[3], b[1]), file=out)
+        if bad:
+            print("VIOLATION property=%s replay=%s" % (pid, path), file=out)
+            return EXIT_VIOLATION
+        print("replay: results do not depend on the order on this tree", file=out)
+        return EXIT_OK
     if rp.get("stage") == "history":
         alone, after = history_probe(pid, rp["plan"]["prefix"], rp["plan"]["plan"])
         print("replay: digest alone=%s, after %d earlier run(s)=%s" % (alone, len(rp["plan"]["prefix"]), after), file=out)
@@ -679,6 +909,14 @@ def run_replay(pid, path, out=sys.stdout):
         return w.replay_stage(rp, out)
     res = execute_plan(pid, rp["plan"], keep_log=True)
     want = rp["expect"]["sig"]
+    tries = 1
+    while not res.violations and rp["plan"].get("numba_threads", 1) > 1 and tries < 8:
+        # the plan runs numba kernels on several real threads: a data race in the code under test is the one thing whose
+        # interleaving the simulator does not decide, so its reproduction is probabilistic (stated limitation)
+        tries += 1
+        res = execute_plan(pid, rp["plan"], keep_log=True)
+    if tries > 1:
+        print("replay: needed %d attempts (real numba threads: reproduction of a data race is not deterministic)" % tries, file=out)
     hit = [v for v in res.violations if v["sig"] == want]
     print("replay digest=%s steps=%d violations=%d" % (res.digest, res.steps, len(res.violations)), file=out)
     for v in res.violations:
@@ -700,6 +938,6 @@ def run_digests(pid, tier, base_seed, indices, out=sys.stdout):
     d = {}
     for i in indices:
         plan = plan_for(pid, base_seed, i, tier)
-        d[str(i)] = in_fresh_fork(_history_probe_inner, (pid, [], plan))
+        d[str(i)] = in_fresh_fork(_both_digests_inner, (pid, plan))
     print("DIGESTS " + json.dumps(d), file=out)
     return EXIT_OK
